@@ -156,6 +156,18 @@ impl Conv for Vec<i32> {
     }
 }
 
+impl Conv for Vec<u8> {
+    fn to_value(&self) -> Value {
+        Value::List(self.iter().map(|x| *x as i64).collect())
+    }
+    fn from_value(v: &Value) -> Self {
+        match v {
+            Value::List(l) => l.iter().map(|x| *x as u8).collect(),
+            _ => panic!("nvrt: bad value kind for Vec<u8>"),
+        }
+    }
+}
+
 impl Conv for Option<i32> {
     fn to_value(&self) -> Value {
         Value::List(self.iter().map(|x| *x as i64).collect())
